@@ -485,9 +485,16 @@ def handle (q : Q) (op : String) (a : Proto.Args) : Q × String :=
     (q', s!"{outStr q q' r evs} notify={Proto.b2s nt}")
   | "new" => let q' := Q.init (a.nat "n") (a.bool "ind") (a.bool "ev") (a.bool "ap"); (q', s!"ok | - | {q'.privStr}")
   | "add" =>
-    let (q', r, evs) := q.add (parseBufs (a.str "in")) (parseBufs (a.str "out")); (q', outStr q q' r evs (a.bool "nost"))
+    let (q', r, evs) := q.add (parseBufs (a.str "in")) (parseBufs (a.str "out"))
+    -- a panicking `add` (empty buffer on the direct path) ends the case: nothing after it is compared
+    if r == .panic then (q', "panic") else (q', outStr q q' r evs (a.bool "nost"))
   | "pop" =>
     let (q', r, evs) := q.popUsed (a.nat "tok") (parseBufs (a.str "in")) (parseBufs (a.str "out")); (q', outStr q q' r evs (a.bool "nost"))
+  | "decide" =>
+    -- stateless: the notification decision for the given device-side words (driver-level C05 stream)
+    let q' : Q := { Q.init 1 false (a.bool "ev") false with
+                    availIdx := a.nat "idx" % U16, availEvent := a.nat "avail_event" % U16, usedFlags := a.nat "flags" }
+    (q, s!"notified={if q'.shouldNotify then 1 else 0}")
   | "notify" => let (q', evs) := q.setDevNotify (a.bool "en"); (q', outStr q q' .unit evs)
   | "used" => let q' := q.devUsed (a.nat "id") (a.nat "len"); (q', outStr q q' .unit [])
   | "usedidx" => let q' := q.devSetUsedIdx (a.nat "v"); (q', outStr q q' .unit [])
